@@ -165,6 +165,8 @@ def check_seeds(analysis: Analysis) -> List[str]:
                                         problems.append(f"{q}.{attr}: seed says dict, constructor assigns {unparse(val)[:40]}")
                                     if isinstance(ty, tuple) and ty[0] == "deque" and m.name == "__init__" and "deque" not in unparse(val):
                                         problems.append(f"{q}.{attr}: seed says deque, constructor assigns {unparse(val)[:40]}")
+        if not found and attr.startswith("_") and not attr.startswith("__"):
+            continue  # a private attribute that is gone (renamed / re-represented): the seed is inert
         if not found:
             problems.append(f"seed {cls_name}.{attr}: no assignment self.{attr} = ... found")
     return problems
@@ -182,8 +184,11 @@ def calls_in(node: ast.AST, name: Optional[str] = None) -> Iterable[ast.Call]:
 
 
 def callers_of(analysis: Analysis, qual: str) -> List[str]:
-    """Functions of the core modules that syntactically call `qual` (by bare or attribute name)."""
+    """Functions of the core modules that syntactically call `qual` (by bare or attribute name) or that mention
+    its name as a value (`f = _helper if c else _other; f(x)`, `functools.partial(_helper, ...)`, a table of
+    functions): whoever can get hold of the function is a potential caller."""
     name = qual.split(":")[1].split(".")[-1]
+    private = name.startswith("_") and not name.startswith("__")
     out = []
     for mod in core_modules(analysis):
         for node in ast.walk(mod.tree):
@@ -191,6 +196,10 @@ def callers_of(analysis: Analysis, qual: str) -> List[str]:
                 f = node.func
                 if (isinstance(f, ast.Name) and f.id == name) or (isinstance(f, ast.Attribute) and f.attr == name):
                     out.append(func_of_node(analysis, mod, node))
+            elif private and isinstance(node, (ast.Name, ast.Attribute)) and isinstance(node.ctx, ast.Load) and (node.id if isinstance(node, ast.Name) else node.attr) == name:
+                fn = func_of_node(analysis, mod, node)
+                if fn not in out:
+                    out.append(fn)
     return out
 
 
@@ -209,6 +218,21 @@ def owned_by(analysis: Analysis, qual: str, allowed, _depth: int = 0) -> bool:
         return False
     cs = [c for c in callers_of(analysis, qual) if c != qual]
     return bool(cs) and all(owned_by(analysis, c, allowed, _depth + 1) for c in cs)
+
+
+def setter_outs(analysis: Analysis, it, st, cls_qual: str, prop: str, obj, value):
+    """Evaluate the setter of property `prop` of a repo class - an `@x.setter` method or the fset of a property
+    object a factory built in the class body - on (obj, value). Returns (qualified name, node, outcomes)."""
+    cls = analysis.p.classes[cls_qual]
+    pr = analysis.p.find_prop(cls_qual, prop)
+    if pr is not None and "set" in pr:
+        info = pr["set"]
+        return info.qual, info.node, analysis.run_root(it, info.qual, [value], obj, st)
+    dp = it.dyn_prop(cls_qual, prop)
+    fset = (dp.args[1] if len(dp.args) > 1 else dp.kwargs.get("fset")) if dp is not None else None
+    if fset is None or not hasattr(fset, "info"):
+        raise AnalysisError(f"anchor vanished: {cls_qual}.{prop} has no setter (neither @{prop}.setter nor a property object in the class body of {cls.qual})")
+    return fset.info.qual, fset.info.node, it.call(st, fset, [obj, value], {}, fset.info.node)
 
 
 def inbound_message_key(events, root: str = "__init__:Gateway.logic"):
